@@ -47,12 +47,23 @@ def build_events(allc, out, rep, mo):
         if new_reports:
             rep.violation(f"cleanup:NoRemovedIsReferenced:{site}", f"check() reports new dangling references after cleanup: {new_reports}", {"kind": "cleanup", "case": c, "a": mo[i]["a"]})
             continue
-        G = gm.flat(graphlib.graph_of_tree(s0["tree"]))
-        R = gm.flat(graphlib.graph_of_tree(s1["tree"]))
-        R2 = gm.flat(graphlib.graph_of_tree(s2["tree"]))
-        events.append({"ev": "cleanup", "G": G, "R": R, "R2": R2})
-        idx.append(i)
+        for k in range(2 if c["id"].get("two") else 1):
+            G = gm.flat(graphlib.graph_of_tree(s0["tree"], k))
+            R = gm.flat(graphlib.graph_of_tree(s1["tree"], k))
+            R2 = gm.flat(graphlib.graph_of_tree(s2["tree"], k))
+            events.append({"ev": "cleanup", "G": G, "R": R, "R2": R2})
+            idx.append(i)
     return events, idx
+
+
+def two_module_cases(cases, step):
+    """files with two MODULEs: a case and its predecessor in the enumeration (same names, other use)"""
+    out = []
+    for j in range(1, len(cases), step):
+        cid = dict(cases[j]["id"])
+        cid["two"] = True
+        out.append({"id": cid, "G": cases[j]["G"], "G0": cases[j - 1]["G"]})
+    return out
 
 
 def run(tier, selftest):
@@ -74,11 +85,13 @@ def run(tier, selftest):
     for i in range(1200 if thorough else 25):
         _, b = mergecheck.random_pair(rng, rng.choice([30, 60, 120, 240] if thorough else [20, 40]))
         rand_cases.append({"id": {"fam": "random", "n": i}, "G": mergecheck.to_abstract(b)})
-    allc = cases + rand_cases
+    two = two_module_cases(cases, 1 if thorough else 7)
+    allc = cases + rand_cases + two
     mo = []
     for i, c in enumerate(allc):
         g = graphlib.abstract_to_graph(c["G"])
-        mo.append({"id": i, "a": gm.render(g), "ops": ["cleanup", "cleanup"]})
+        text = gm.render2(graphlib.abstract_to_graph(c["G0"]), g) if "G0" in c else gm.render(g)
+        mo.append({"id": i, "a": text, "ops": ["cleanup", "cleanup"]})
     out = graphlib.run_ops(binp, mo, "cleanup")
     events, idx = build_events(allc, out, rep, mo)
     failed, tr = graphlib.judge(events, "Trace_Graph_C10", PID)
@@ -120,6 +133,7 @@ def run(tier, selftest):
         "samples": [cases[0], cases[-1]["id"]],
         "case_families": fams,
         "random_modules": len(rand_cases),
+        "files_with_two_modules": len(two),
         "events_rejected": len(failed),
     }
     if binding:
@@ -127,7 +141,7 @@ def run(tier, selftest):
     vlib.write_evidence(PID, tier, "model_checking", cov, [
         "'alters' is read leniently: a reference may disappear from an object only if it dangled before, and only a neutral name (NO_COMPU_METHOD, ...) may appear; helper elements may lose references",
         "the property does not demand that every unreferenced helper is removed; kept helpers are not judged",
-        "one MODULE per file",
+        "files with two MODULEs hold a case and its predecessor in the enumeration; each module is judged on its own (name spaces are per module)",
     ], time.time() - t0, rep.count_new)
     return rep.exit_code()
 
